@@ -39,6 +39,8 @@ def step (d : D) (fs : List String) : D × String :=
   | ["exchange", c] =>
     if c = "x" || (c.startsWith "c" && (c.drop 1).toString.toNat?.isSome) then
       let (d', _, out) := exchange d c; (d', out)
+    else if (c.startsWith "C" || c.startsWith "u" || c.startsWith "b" || c.startsWith "n") && (c.drop 1).toString.toNat?.isSome then
+      let (d', _, out) := exchange d ("respelled-" ++ c); (d', out)     -- never an issued code
     else (d, "bad-op")
   | ["clean"] => ({ d with c := Gen.ttlcode.CodeStore.CleanExpired (world d) d.c }, "ok")
   | ["delbid", b] => match hexToString b with
